@@ -1,3 +1,4 @@
+//@set display
 //@include frag/std.tpl
 //@include frag/core_modules.tpl
 pub mod decode {
